@@ -93,6 +93,26 @@ def freeze_once():
         _frozen = True
 
 
+_SUB = None
+
+
+def sub_class(um):
+    """A (trivial) subclass of UrwidImage: applications subclass widgets; the z-index allocator is one
+    allocator for UrwidImage and all of its subclasses."""
+    global _SUB
+    if _SUB is None or not issubclass(_SUB, um.UrwidImage):
+        _SUB = type("SubUrwidImage", (um.UrwidImage,), {})
+    return _SUB
+
+
+def reset_sub(um):
+    """Class-level state a (mis-behaving) allocator may have bound on the subclass."""
+    sub = sub_class(um)
+    for name in ("_ti_next_z_index", "_ti_free_z_indexes", "_ti_disguise_state", "_ti_error_placeholder"):
+        if name in sub.__dict__:
+            delattr(sub, name)
+
+
 class Dead(Exception):
     """The execution cannot continue (the code under test raised); already reported."""
 
@@ -127,6 +147,7 @@ class Stage:
             L.utils.get_fg_bg_colors()
             L.utils.get_cell_size()
             Stage._world_key, Stage._world_tty = wkey, self.tty
+        reset_sub(self.um)
         self.term = vterm.VTerm(self.W, self.H, self.ident)
         self.tty.sink = self.term
         self.screen, self.out = new_screen(self.um, self.term)
@@ -179,8 +200,10 @@ class Stage:
             cls = self.L.image.KittyImage if kind == "K" else self.L.image.ITerm2Image
             img = cls(pattern(cw * CELL[0], ch * CELL[1], seed=wid + 1))
             spec = "+L"
+        # every other kitty widget is an instance of a subclass of UrwidImage
+        wcls = sub_class(self.um) if kind == "K" and wid % 4 == 2 else self.um.UrwidImage
         try:
-            w = self.um.UrwidImage(img, spec)
+            w = wcls(img, spec)
         except Exception as e:  # noqa: BLE001
             self.report(dict(clause="exception", exc=type(e).__name__, where="create", identity=self.ident),
                         f"UrwidImage({kind}) raised {type(e).__name__}: {e}")
@@ -560,7 +583,9 @@ class Stage:
         um = self.um
         ws = tuple((wid, kind, getattr(w, "_ti_z_index", None), w._ti_disguise_state, wid in self.widgets)
                    for wid, kind, w in self.live_widgets() if wid in self.widgets or kind == "K")
+        sub = sub_class(um)
         return h64(repr((self.spec, ws, um.UrwidImageCanvas._ti_disguise_state,
+                         sub.__dict__.get("_ti_next_z_index"), tuple(sub.__dict__.get("_ti_free_z_indexes", ())),
                          tuple(um.UrwidImage._ti_free_z_indexes), um.UrwidImage._ti_next_z_index)))
 
     def close(self):
